@@ -9,7 +9,7 @@ def run(tier):
     rep = core.Report('C18', tier, 'exploration',
         'format: IPv4 octets {0,1,9,10,99,100,199,200,255}^4, IPv6 groups {0,1,ffff,db8}^8 (thorough {0,1,10,db8,ffff}^8), '
         'v4-mapped/compatible over the octet grid, UNIX paths of every length 1..107, x 11 boundary ports '
-        '(thorough: all 65536 ports on 16 addresses) x every output capacity 0..text+10 and STR_ADDR_LEN; '
+        '(thorough: all 65536 ports on 16 addresses) x every output capacity 0..text+10 and STR_ADDR_LEN (capacities 0..2 of the IPv6+port form on every 97th/1009th case); '
         'parse: every string over {1,2,5,.,:,[,],space,a,f,/} up to length 6 (thorough 7), core+decoration strings, '
         'every prefix length/port as text; prefix arithmetic: every length 0..32/0..128 (+ out of range) on the same '
         'address grids (thorough: all 2^32 IPv4 addresses x all 33 lengths, one case per /24 block). A case is non-trivial when the library call succeeded and '
